@@ -72,9 +72,9 @@ Qed.
    the sanitizer leaves there asks for __typename on that very level, so every object comes back with it, whatever its
    type (sanitizeSelectionSet as modelled in Plan/Sanitize.v and compared with the code by C02's check; since fix
    a47d390 — before it a __typename inside one fragment suppressed the helper for all the other types) *)
-Theorem abstract_selections_carry_typename : forall tm sc ss t,
+Theorem abstract_selections_carry_typename : forall tm sc ss t is_fragment,
   Sanitize.kind_of sc t <> Sanitize.KOther ->
-  Sanitize.has_direct (fst (Sanitize.add_scrub_fields tm sc ss t)) "__typename" = true.
+  Sanitize.has_direct (fst (Sanitize.add_scrub_fields tm sc ss t is_fragment)) "__typename" = true.
 Proof. exact SanitizeProofs.abstract_selection_has_typename. Qed.
 
 Example c13_nonvacuous :
